@@ -186,6 +186,8 @@ EncodeOK(it, pos, lbls) ==
     [] it.k = "imml" -> LET v == FinalVal(it, pos, lbls) IN
                         IF it.m \in UType THEN Between(v, -524288, 1048575) ELSE Fits12(v)
     [] it.k = "imml2" -> Fits12(FinalVal(it, PairPos(pos), lbls))
+    \* (what the code does with the spelling AsmEncode leaves open - "may": a literal jalr with an odd immediate is refused)
+    [] it.k = "ins" /\ it.d.m = "jalr" -> it.d.ops[3] % 2 = 0
     [] it.k = "cli" -> Between(FinalVal(it, pos, lbls), -32, 31)
     [] OTHER -> TRUE
 RECURSIVE FirstBad(_, _, _, _)
